@@ -1,5 +1,6 @@
 // ===== frontend endpoint: specification vocabulary =====
 
+// R5 target: mem::size_of::<T>() (sizes proved-by: c01_layout_table)
 #[verifier::external_body]
 pub fn size_of_<T: ByteValued>() -> (r: usize) ensures r as nat == T::spec_size(), r <= 4096 { unimplemented!() }
 
